@@ -223,6 +223,10 @@ def retag(rng, scaffolds, mode):
     n = len(scaffolds)
     special = rng.randrange(n)  # this one is always tagged, the next one never: two assemblies whenever n >= 2
     first_hap = rng.randrange(2)
+    if mode == "primary":
+        # --help: Primary "is used to tag the first 'Painted' chromosome in the curated haplotype": scaffold 0 is the
+        # first of its haplotype in the map, scaffold 1 the first of the other one
+        special = rng.randrange(min(n, 2))
     out = []
     for i, rows in enumerate(scaffolds):
         tags = ["Painted"] if any("Painted" in r[4] for r in rows) else []
@@ -851,11 +855,11 @@ def run(tier, seed, **opts):
             except Exception:  # noqa: BLE001
                 G.remove_with_caches(path)
                 continue  # reported by the parts above
-            for bs in (1, 3, 16, 250_000) if quick else (1, 2, 3, 4, 5, 7, 16, 61, 250_000):
+            for bi, bs in enumerate((3, 1, 16, 250_000) if quick else (1, 2, 3, 4, 5, 7, 16, 61, 250_000)):
                 plans = list(fixed_step_sequences(gap_panel(case, bs, rng if ci else None)))
-                if quick and ci:
-                    plans = plans[ci % 4 :: 4]
-                plans += [random_steps(rng, case, bs) for _ in range(3 if quick else 60)]
+                if quick and (ci or bi):
+                    plans = plans[(ci + bi) % 4 :: 4]
+                plans += [random_steps(rng, case, bs) for _ in range(2 if quick else 60)]
                 for pi, steps in enumerate(plans):
                     if col.full:
                         break
